@@ -43,13 +43,22 @@ def main(tier):
         return pre, pro
     pairs = [p for p in (split(h) for h in hs) if p]
     ck.notes["prefix_probe_pairs_enumerated"] = len(pairs)
-    sample = rng.sample(pairs, min(len(pairs), 60 if quick else 800))
+    # carry-over needs a medium: half of the sample are pairs in which BOTH the prefix and the probe factorize into the caller's
+    # workspace (the one buffer the harness hands to every call without clearing it), the rest is drawn from all pairs
+    def ws(h):
+        return any(c["call"] == "gssvx" and c.get("lw") == "user" and c.get("fact") != "FACTORED" for c in h)
+    both = [p for p in pairs if ws(p[0]) and ws(p[1])]
+    ck.notes["pairs_with_workspace_in_prefix_and_probe"] = len(both)
+    total = 72 if quick else 800
+    sample = rng.sample(both, min(len(both), total // 2))
+    rest = [p for p in pairs if p not in sample]
+    sample += rng.sample(rest, min(len(rest), total - len(sample)))
     tlc.stage(wd)
     for p in ("d", "s", "z", "c"):
         api.driver(p)
     items = []
     for i, (pre, pro) in enumerate(sample):
-        prec = ("d", "s", "z", "c")[i % 4]
+        prec = ("d", "s", "d", "z", "c", "d")[i % 6]
         fix = lambda h: [dict(c, trans="T") if (prec in "cz" and c.get("trans") == "C") else c for c in h]
         pre, pro = fix(pre), fix(pro)
         r1 = random.Random(rng.randrange(10 ** 9))
@@ -60,6 +69,33 @@ def main(tier):
         btxt = api.script_of(pro, r2, nmax=24, threads=(1,), ienv=ienv, tight=tight)
         body = "\n".join(l for l in btxt.splitlines() if not l.startswith("ienv") and not l.startswith("track"))
         items.append((i, pre, pro, prec, ptxt + body + "\n", btxt))
+
+    # second family: the probe is the LAST call of a history on the SAME matrix (same buffer sizes, same workspace length): alone =
+    # the matrix (and its value changes) followed by that call only.  Carry-over through storage that is laid out identically in
+    # both calls (per-thread work arrays in the caller's workspace, static state sized by n) shows here and not in the first family.
+    def same_ok(h):
+        if sum(1 for c in h if c["call"] == "mat") != 1 or len(h) < 3 or h[0]["call"] != "mat":
+            return False
+        last = h[-1]
+        if last["call"] == "gssvx" and (last["fact"] == "FACTORED" or last["refact"] or last["lw"] == "query"):
+            return False
+        return last["call"] in ("gssv", "gssvx") and any(c["call"] in ("gssv", "gssvx") and not (c["call"] == "gssvx" and (c["lw"] == "query" or c["fact"] == "FACTORED")) for c in h[1:-1])
+    same = [h for h in hs if same_ok(h)]
+    ck.notes["same_matrix_histories_enumerated"] = len(same)
+    samew = [h for h in same if h[-1]["call"] == "gssvx" and h[-1]["lw"] == "user" and any(c.get("lw") == "user" for c in h[1:-1])]
+    ssel = rng.sample(samew, min(len(samew), 24 if quick else 300))
+    ssel += rng.sample([h for h in same if h not in ssel], min(len(same) - len(ssel), 12 if quick else 300))
+    for k, h in enumerate(ssel):
+        i = 10000 + k
+        prec = ("d", "s", "d", "z", "c", "d")[k % 6]
+        hh = [dict(c, trans="T") if (prec in "cz" and c.get("trans") == "C") else c for c in h]
+        r1 = random.Random(rng.randrange(10 ** 9))
+        # one fixed workspace length for every call of the history: the per-thread arrays of consecutive calls then overlay each other
+        txt = api.script_of(hh, r1, nmax=30, threads=(1, 2, 4), tight=0, scale="none", pert=rng.choice([0, 30, 60]))
+        lines = txt.splitlines()
+        lines[-1] = " ".join("P=1" if t.startswith("P=") else t for t in lines[-1].split())      # the probe itself single-threaded: bitwise reproducible
+        keep = [l for l in lines[:-1] if l.split()[0] in ("ienv", "track", "mat", "permc", "vals")]
+        items.append((i, hh[:-1], hh[-1:], prec, "\n".join(lines) + "\n", "\n".join(keep + [lines[-1]]) + "\n"))
 
     def one(a):
         i, pre, pro, prec, full, alone = a
